@@ -586,15 +586,21 @@ def discharge(premises, goal, timeout_ms=10000, hints=None):
     def stage_1():
         # explicit ground instances over the obligation's own terms (bounded)
         inst = instantiate(quant, ints, strs, cap=4000)
-        ints2, strs2 = harvest(base + inst)
-        if len(ints2) > len(ints) and len(ints2) <= 140:
-            have = set(x.get_id() for x in ints)
-            new_ints = [t for t in ints2 if t.get_id() not in have]
-            one = [q for q in quant if q.num_vars() == 1 and q.var_sort(0) == INT]
-            inst = inst + instantiate(one, new_ints, strs)
         fs = base + inst + ord_axioms(strs, base + inst)
         fs = fs + term_axioms(fs)
-        r, s, dt = check(fs, min(timeout_ms, 2000 if seq else 5000))
+        r, s, dt = check(fs, min(timeout_ms, 2000))
+        if r != z3.unsat:
+            # second round: terms created by the first-round instances, for the
+            # single-variable clauses only (keeps the instance count linear)
+            ints2, strs2 = harvest(base + inst)
+            if len(ints2) > len(ints) and len(ints2) <= 140:
+                have = set(x.get_id() for x in ints)
+                new_ints = [t for t in ints2 if t.get_id() not in have]
+                one = [q for q in quant if q.num_vars() == 1 and q.var_sort(0) == INT]
+                inst = inst + instantiate(one, new_ints, strs)
+                fs = base + inst + ord_axioms(strs, base + inst)
+                fs = fs + term_axioms(fs)
+                r, s, dt = check(fs, min(timeout_ms, 2000 if seq else 5000))
         state["r"], state["s"] = r, s
         if r == z3.unsat:
             return dict(status="proved", stage=1, backend="z3", time_s=time.time() - t0, instances=len(inst))
